@@ -49,7 +49,11 @@ def canon(x, depth=0):
         items = [canon(v, depth + 1) for v in x]
         return items if not isinstance(x, (set, frozenset)) else sorted(items, key=json.dumps)
     if hasattr(x, "__dict__") or hasattr(x, "__dataclass_fields__"):
-        d = {k: v for k, v in vars(x).items() if not k.startswith("_")} if hasattr(x, "__dict__") else {}
+        if hasattr(x, "__dataclass_fields__"):
+            # the declared fields: what a cached_property leaves in the instance dictionary is not part of the value
+            d = {k: getattr(x, k) for k in x.__dataclass_fields__ if not k.startswith("_") and hasattr(x, k)}
+        else:
+            d = {k: v for k, v in vars(x).items() if not k.startswith("_")} if hasattr(x, "__dict__") else {}
         return {type(x).__name__: canon(d, depth + 1)}
     return repr(x)
 
@@ -73,7 +77,7 @@ def glob_state(pp):
                 none += 1
             else:
                 tot += 3 * b
-        voc.append([len(d), repr(round(tot, 6)), none])
+        voc.append([len(d), repr(round(tot, 6)), none, len(d.name_map), len(d.synonym_map)])
     return {"rng": hashlib.sha1(repr(random.getstate()).encode()).hexdigest()[:16], "voc": voc}
 
 
